@@ -18,10 +18,25 @@ import (
 	"strings"
 )
 
+// ctorInfo: translation of a constructor body (the statements before its closures). Fields of
+// `*SR` are mutable there: `this.F = e` rebinds `this_F`. A float that the body tests with
+// `math.IsNaN` (a field `NewSR` left NaN, or a local copied from one) is "nanable": it is carried
+// as `Option α` (`none` = still NaN), read through `optNum`, tested through `optNaN`, written as
+// `some e` (or copied as an option when the right-hand side is itself a nanable read).
+type ctorInfo struct {
+	nanable     map[string]bool // "this_F" or a local name
+	written     []string        // "this_F" of every assigned field, sorted
+	initWritten map[string]bool // fields assigned unconditionally before any read: no parameter
+	captured    []string        // locals the closures capture (floats), sorted
+	tailCall    string          // `return TMerc(this)`
+}
+
 type cl struct {
 	t        *tr
 	name     string
 	lo, hi   token.Pos
+	ctor     *ctorInfo
+	opts     map[string]bool
 	floats   map[string]bool
 	bools    map[string]bool
 	nats     map[string]bool
@@ -40,12 +55,73 @@ func isThis(e ast.Expr) bool {
 	return ok && id.Name == "this"
 }
 
+// refName: the variable a plain read denotes ("this_F" for `this.F`, the name of an identifier)
+func refName(e ast.Expr) (string, bool) {
+	for {
+		p, ok := e.(*ast.ParenExpr)
+		if !ok {
+			break
+		}
+		e = p.X
+	}
+	switch x := e.(type) {
+	case *ast.SelectorExpr:
+		if isThis(x.X) {
+			return "this_" + x.Sel.Name, true
+		}
+	case *ast.Ident:
+		if x.Name != "this" && x.Name != "nil" && x.Name != "err" {
+			return x.Name, true
+		}
+	}
+	return "", false
+}
+
+func isMathCall(e ast.Expr, fn string) (*ast.CallExpr, bool) {
+	c, ok := e.(*ast.CallExpr)
+	if !ok {
+		return nil, false
+	}
+	s, ok := c.Fun.(*ast.SelectorExpr)
+	if !ok {
+		return nil, false
+	}
+	id, ok := s.X.(*ast.Ident)
+	return c, ok && id.Name == "math" && s.Sel.Name == fn && len(c.Args) == 1
+}
+
+// nanRead: e is a plain read of a nanable variable; records a field as an Option parameter
+func (c *cl) nanRead(e ast.Expr) (string, bool) {
+	if c.ctor == nil {
+		return "", false
+	}
+	n, ok := refName(e)
+	if !ok || !c.ctor.nanable[n] {
+		return "", false
+	}
+	if strings.HasPrefix(n, "this_") && !c.ctor.initWritten[n] {
+		c.opts[n] = true
+	}
+	return leanIdent(n), true
+}
+
 func (c *cl) hook(e ast.Expr) (string, bool) {
 	info := c.t.p.info
+	if call, ok := isMathCall(e, "IsNaN"); ok {
+		if n, ok := c.nanRead(call.Args[0]); ok {
+			return "(optNaN " + n + ")", true
+		}
+	}
+	if n, ok := c.nanRead(e); ok {
+		return "(optNum " + n + ")", true
+	}
 	switch x := e.(type) {
 	case *ast.SelectorExpr:
 		if isThis(x.X) {
 			n := "this_" + x.Sel.Name
+			if c.ctor != nil && c.ctor.initWritten[n] {
+				return n, true
+			}
 			tv := info.Types[e]
 			if b, ok := tv.Type.Underlying().(*types.Basic); ok {
 				switch {
@@ -147,6 +223,7 @@ type cctx struct {
 	pend  string          // a pending `err = fmt.Errorf(...)`
 	errOK bool            // we are past a successful `v, err = f(...)`: `if err != nil` cannot hold
 	scope map[string]bool // names visible
+	tail  string          // value of a branch that only assigns (constructor bodies): the assigned variables
 }
 
 func (x cctx) with(names ...string) cctx {
@@ -157,11 +234,30 @@ func (x cctx) with(names ...string) cctx {
 	for _, n := range names {
 		m[n] = true
 	}
-	return cctx{x.pend, x.errOK, m}
+	return cctx{x.pend, x.errOK, m, x.tail}
 }
 
 func (c *cl) block(stmts []ast.Stmt, cx cctx, ind string) string {
 	t := c.t
+	if len(stmts) == 0 && cx.tail != "" {
+		return cx.tail
+	}
+	if len(stmts) == 0 && c.ctor != nil {
+		if cx.pend != "" {
+			return "(Except.error " + leanStr(cx.pend) + ")"
+		}
+		var es []string
+		for _, r := range c.ctor.captured {
+			es = append(es, leanIdent(r))
+		}
+		for _, r := range c.ctor.written {
+			es = append(es, leanIdent(r))
+		}
+		if len(es) == 0 {
+			return "(Except.ok ())"
+		}
+		return c.okTuple(es)
+	}
 	if len(stmts) == 0 {
 		// end of a body with named results = bare return
 		if len(c.results) > 0 {
@@ -181,6 +277,20 @@ func (c *cl) block(stmts []ast.Stmt, cx cctx, ind string) string {
 	case *ast.ReturnStmt:
 		if len(x.Results) == 0 {
 			return c.block(nil, cx, ind)
+		}
+		if c.ctor != nil {
+			last := x.Results[len(x.Results)-1]
+			if call, ok := last.(*ast.CallExpr); ok && len(x.Results) == 1 {
+				// `return TMerc(this)`: the rest is the other constructor's
+				if fn, ok := call.Fun.(*ast.Ident); ok && len(call.Args) == 1 && isThis(call.Args[0]) {
+					c.ctor.tailCall = fn.Name
+					return c.block(nil, cx, ind)
+				}
+			}
+			if len(x.Results) == 3 && !isNil(last) && !isErrIdent(last) {
+				return "(Except.error " + leanStr(errMsg(last)) + ")"
+			}
+			c.fail(s, "return of a constructor outside the recognised patterns")
 		}
 		n := len(x.Results)
 		if c.hasErr {
@@ -235,9 +345,9 @@ func (c *cl) block(stmts []ast.Stmt, cx cctx, ind string) string {
 		// err = fmt.Errorf(...)
 		if len(x.Lhs) == 1 && isErrIdent(x.Lhs[0]) {
 			if isNil(x.Rhs[0]) {
-				return c.block(rest, cctx{"", cx.errOK, cx.scope}, ind)
+				return c.block(rest, cctx{"", cx.errOK, cx.scope, cx.tail}, ind)
 			}
-			return c.block(rest, cctx{errMsg(x.Rhs[0]), false, cx.scope}, ind)
+			return c.block(rest, cctx{errMsg(x.Rhs[0]), false, cx.scope, cx.tail}, ind)
 		}
 		// v, err = f(...)
 		if len(x.Lhs) == 2 && isErrIdent(x.Lhs[1]) && len(x.Rhs) == 1 {
@@ -257,7 +367,7 @@ func (c *cl) block(stmts []ast.Stmt, cx cctx, ind string) string {
 			in2 := ind + "  "
 			return fmt.Sprintf("match (%s %s) with\n%s| Except.error e => Except.error e\n%s| Except.ok %s =>\n%s%s",
 				leanIdent(fn.Name), strings.Join(args, " "), ind, ind, leanIdent(id.Name), in2,
-				c.block(rest, cctx{"", true, cx.with(id.Name).scope}, in2))
+				c.block(rest, cctx{"", true, cx.with(id.Name).scope, cx.tail}, in2))
 		}
 		// x, y = y, x
 		if len(x.Lhs) == 2 && len(x.Rhs) == 2 && x.Tok == token.ASSIGN {
@@ -272,6 +382,56 @@ func (c *cl) block(stmts []ast.Stmt, cx cctx, ind string) string {
 		}
 		if len(x.Lhs) != 1 || len(x.Rhs) != 1 {
 			c.fail(s, "multi-assignment")
+		}
+		if c.ctor != nil {
+			name, ok := refName(x.Lhs[0])
+			if !ok {
+				c.fail(s, "assignment target")
+			}
+			if tv, ok := t.p.info.Types[x.Lhs[0]]; ok {
+				if b, ok := tv.Type.Underlying().(*types.Basic); !ok || b.Info()&types.IsFloat == 0 {
+					c.fail(s, "assignment to the non-float %s", name)
+				}
+			}
+			nan := c.ctor.nanable[name]
+			cur := leanIdent(name)
+			if nan {
+				cur = "(optNum " + cur + ")"
+			}
+			var rhs string
+			copied := false
+			if x.Tok == token.DEFINE || x.Tok == token.ASSIGN {
+				if src, ok := c.nanRead(x.Rhs[0]); ok && nan {
+					rhs, copied = src, true
+				}
+			}
+			if !copied {
+				rhs = t.expr(x.Rhs[0])
+			}
+			nc := cx
+			switch x.Tok {
+			case token.DEFINE:
+				nc = cx.with(name)
+			case token.ASSIGN:
+			case token.ADD_ASSIGN:
+				rhs = "(" + cur + " + " + rhs + ")"
+			case token.SUB_ASSIGN:
+				rhs = "(" + cur + " - " + rhs + ")"
+			case token.MUL_ASSIGN:
+				rhs = "(" + cur + " * " + rhs + ")"
+			case token.QUO_ASSIGN:
+				rhs = "(" + cur + " / " + rhs + ")"
+			default:
+				c.fail(s, "assignment operator %s", x.Tok)
+			}
+			ty := "α"
+			if nan {
+				ty = "Option α"
+				if !copied {
+					rhs = "(some " + rhs + ")"
+				}
+			}
+			return fmt.Sprintf("let %s : %s := %s\n%s", leanIdent(name), ty, rhs, ind) + c.block(rest, nc, ind)
 		}
 		id, ok := x.Lhs[0].(*ast.Ident)
 		if !ok {
@@ -312,6 +472,44 @@ func (c *cl) block(stmts []ast.Stmt, cx cctx, ind string) string {
 			c.fail(s, "if with init statement")
 		}
 		th, el := x.Body.List, elseList(x)
+		if c.ctor != nil && effectOnly(th) && effectOnly(el) {
+			// both branches only assign: join them instead of duplicating the continuation
+			var vs []string
+			effAssigned(th, &vs)
+			effAssigned(el, &vs)
+			if len(vs) > 0 {
+				var names, tys []string
+				for _, v := range vs {
+					names = append(names, leanIdent(v))
+					if c.ctor.nanable[v] {
+						tys = append(tys, "Option α")
+					} else {
+						tys = append(tys, "α")
+					}
+					if strings.HasPrefix(v, "this_") && !c.ctor.initWritten[v] && !cx.scope[v] && !(topAssigns(th, v) && topAssigns(el, v)) {
+						// the untouched branch reads the incoming value
+						if c.ctor.nanable[v] {
+							c.opts[v] = true
+						} else {
+							c.floats[v] = true
+						}
+					}
+				}
+				pat, ty, tl := names[0], tys[0], names[0]
+				if len(vs) > 1 {
+					pat = "(" + strings.Join(names, ", ") + ")"
+					ty = strings.Join(tys, " × ")
+					tl = pat
+				}
+				cond := t.expr(x.Cond)
+				in2 := ind + "  "
+				sub := cctx{cx.pend, cx.errOK, cx.scope, tl}
+				a := c.block(th, sub, in2)
+				b := c.block(el, sub, in2)
+				return fmt.Sprintf("let %s : %s := if %s then\n%s%s\n%selse\n%s%s\n%s", pat, ty, cond, in2, a, ind, in2, b, ind) +
+					c.block(rest, cx.with(vs...), ind)
+			}
+		}
 		// `if err != nil { ... }` right after a successful two-valued call
 		if be, ok := x.Cond.(*ast.BinaryExpr); ok && isErrIdent(be.X) && isNil(be.Y) {
 			if be.Op == token.NEQ && cx.errOK && x.Else == nil {
@@ -465,4 +663,264 @@ func closuresOf(fd *ast.FuncDecl) map[string]*ast.FuncLit {
 		return true
 	})
 	return out
+}
+
+// ---------------------------------------------------------------- constructor bodies
+
+// ctorBody: the statements of a constructor before its closures
+func ctorBody(fd *ast.FuncDecl) []ast.Stmt {
+	var out []ast.Stmt
+	for _, s := range fd.Body.List {
+		if as, ok := s.(*ast.AssignStmt); ok && len(as.Lhs) == 1 && len(as.Rhs) == 1 {
+			if id, ok := as.Lhs[0].(*ast.Ident); ok && (id.Name == "forward" || id.Name == "inverse") {
+				if _, ok := as.Rhs[0].(*ast.FuncLit); ok {
+					break
+				}
+			}
+		}
+		out = append(out, s)
+	}
+	return out
+}
+
+func (c *cl) prepass(stmts []ast.Stmt) {
+	ci := c.ctor
+	// nanable: a FIELD that is an argument of math.IsNaN (it may still hold NewSR's NaN); a LOCAL that
+	// is tested and receives a plain copy of a field (`K0 := this.K0; if math.IsNaN(K0)`). A tested
+	// local that only holds computed values is an ordinary float (`RNum.isNaN`).
+	tested := map[string]bool{}
+	for _, s := range stmts {
+		ast.Inspect(s, func(n ast.Node) bool {
+			if e, ok := n.(ast.Expr); ok {
+				if call, ok := isMathCall(e, "IsNaN"); ok {
+					if nm, ok := refName(call.Args[0]); ok {
+						if strings.HasPrefix(nm, "this_") {
+							ci.nanable[nm] = true
+						} else {
+							tested[nm] = true
+						}
+					}
+				}
+			}
+			return true
+		})
+	}
+	// a plain copy of a field into a nanable (or into a tested local) makes both nanable
+	for changed := true; changed; {
+		changed = false
+		for _, s := range stmts {
+			ast.Inspect(s, func(n ast.Node) bool {
+				if as, ok := n.(*ast.AssignStmt); ok && len(as.Lhs) == 1 && len(as.Rhs) == 1 && (as.Tok == token.ASSIGN || as.Tok == token.DEFINE) {
+					l, ok1 := refName(as.Lhs[0])
+					r, ok2 := refName(as.Rhs[0])
+					if ok1 && ok2 && strings.HasPrefix(r, "this_") && (ci.nanable[l] || tested[l]) {
+						if !ci.nanable[l] || !ci.nanable[r] {
+							ci.nanable[l], ci.nanable[r] = true, true
+							changed = true
+						}
+					}
+				}
+				return true
+			})
+		}
+	}
+	// written fields
+	seen := map[string]bool{}
+	for _, s := range stmts {
+		ast.Inspect(s, func(n ast.Node) bool {
+			if as, ok := n.(*ast.AssignStmt); ok {
+				for _, l := range as.Lhs {
+					if nm, ok := refName(l); ok && strings.HasPrefix(nm, "this_") && !seen[nm] {
+						seen[nm] = true
+						ci.written = append(ci.written, nm)
+					}
+				}
+			}
+			return true
+		})
+	}
+	sort.Strings(ci.written)
+	// fields assigned unconditionally (top level, plain `=`) before any read
+	read := map[string]bool{}
+	reads := func(n ast.Node) {
+		ast.Inspect(n, func(m ast.Node) bool {
+			if sel, ok := m.(*ast.SelectorExpr); ok && isThis(sel.X) {
+				read["this_"+sel.Sel.Name] = true
+			}
+			return true
+		})
+	}
+	for _, s := range stmts {
+		if as, ok := s.(*ast.AssignStmt); ok && len(as.Lhs) == 1 && len(as.Rhs) == 1 && as.Tok == token.ASSIGN {
+			if nm, ok := refName(as.Lhs[0]); ok && strings.HasPrefix(nm, "this_") {
+				reads(as.Rhs[0])
+				if !read[nm] {
+					ci.initWritten[nm] = true
+				}
+				continue
+			}
+		}
+		reads(s)
+	}
+}
+
+// ctorInit translates the body of constructor `fd` before its closures: a function of the `*SR`
+// fields it reads, returning the captured locals and the final values of the fields it writes.
+func (t *tr) ctorInit(name string, fd *ast.FuncDecl, captured []string) (res string, err error) {
+	defer func() {
+		if r := recover(); r != nil {
+			if u, ok := r.(untranslatable); ok {
+				err = fmt.Errorf("%s", u.msg)
+				return
+			}
+			panic(r)
+		}
+	}()
+	stmts := ctorBody(fd)
+	c := &cl{t: t, name: name, lo: fd.Type.Pos(), hi: fd.Body.End(), floats: map[string]bool{}, bools: map[string]bool{},
+		nats: map[string]bool{}, opts: map[string]bool{}, pkgFuncs: map[string]bool{}, hasErr: true,
+		ctor: &ctorInfo{nanable: map[string]bool{}, initWritten: map[string]bool{}, captured: captured}}
+	c.prepass(stmts)
+	old := t.hook
+	t.hook = c.hook
+	defer func() { t.hook = old }()
+	body := c.block(stmts, cctx{scope: map[string]bool{}}, "  ")
+	sorted := func(m map[string]bool) []string {
+		var l []string
+		for k := range m {
+			l = append(l, k)
+		}
+		sort.Strings(l)
+		return l
+	}
+	var binders strings.Builder
+	if fl := sorted(c.floats); len(fl) > 0 {
+		fmt.Fprintf(&binders, "(%s : α) ", strings.Join(fl, " "))
+	}
+	if ol := sorted(c.opts); len(ol) > 0 {
+		fmt.Fprintf(&binders, "(%s : Option α) ", strings.Join(ol, " "))
+	}
+	if nl := sorted(c.nats); len(nl) > 0 {
+		fmt.Fprintf(&binders, "(%s : Nat) ", strings.Join(nl, " "))
+	}
+	if bl := sorted(c.bools); len(bl) > 0 {
+		fmt.Fprintf(&binders, "(%s : Bool) ", strings.Join(bl, " "))
+	}
+	var tys []string
+	for _, v := range append(append([]string{}, c.ctor.captured...), c.ctor.written...) {
+		if c.ctor.nanable[v] {
+			tys = append(tys, "Option α")
+		} else {
+			tys = append(tys, "α")
+		}
+	}
+	resTy := "Unit"
+	if len(tys) > 0 {
+		resTy = strings.Join(tys, " × ")
+	}
+	var b strings.Builder
+	tail := ""
+	if c.ctor.tailCall != "" {
+		tail = "; then `" + c.ctor.tailCall + "(this)`"
+	}
+	fmt.Fprintf(&b, "/-- body of constructor `%s` (%s) before its closures%s.\n    reads: %s\n    returns (captured locals, then written fields): %s -/\n",
+		fd.Name.Name, t.p.fset.Position(fd.Pos()), tail,
+		strings.Join(append(append(append(sorted(c.floats), sorted(c.opts)...), sorted(c.nats)...), sorted(c.bools)...), " "),
+		strings.Join(append(append([]string{}, c.ctor.captured...), c.ctor.written...), " "))
+	fmt.Fprintf(&b, "def %s {α : Type} [RTrans α] %s: Except String (%s) :=\n  %s\n\n", name, binders.String(), resTy, body)
+	return b.String(), nil
+}
+
+// capturedBy: the constructor's locals that the translated closures read
+func (t *tr) capturedBy(fd *ast.FuncDecl) []string {
+	set := map[string]bool{}
+	for _, fl := range closuresOf(fd) {
+		lo, hi := fl.Pos(), fl.End()
+		ast.Inspect(fl.Body, func(n ast.Node) bool {
+			id, ok := n.(*ast.Ident)
+			if !ok {
+				return true
+			}
+			if obj, ok := t.p.info.Uses[id].(*types.Var); ok && !obj.IsField() && obj.Parent() != obj.Pkg().Scope() {
+				if (obj.Pos() < lo || obj.Pos() > hi) && obj.Pos() > fd.Body.Pos() {
+					if b, ok := obj.Type().Underlying().(*types.Basic); ok && b.Info()&types.IsFloat != 0 {
+						set[id.Name] = true
+					}
+				}
+			}
+			return true
+		})
+	}
+	var l []string
+	for k := range set {
+		l = append(l, k)
+	}
+	sort.Strings(l)
+	return l
+}
+
+// effectOnly: the statements only assign floats (plain or compound assignment, no declaration, no
+// `err`, no return), possibly under nested ifs of the same kind
+func effectOnly(stmts []ast.Stmt) bool {
+	for _, s := range stmts {
+		switch x := s.(type) {
+		case *ast.AssignStmt:
+			if x.Tok == token.DEFINE || len(x.Lhs) != 1 || len(x.Rhs) != 1 {
+				return false
+			}
+			if n, ok := refName(x.Lhs[0]); !ok || n == "" {
+				return false
+			}
+			if isErrIdent(x.Lhs[0]) {
+				return false
+			}
+		case *ast.IfStmt:
+			if x.Init != nil || !effectOnly(x.Body.List) || !effectOnly(elseList(x)) {
+				return false
+			}
+		case *ast.BlockStmt:
+			if !effectOnly(x.List) {
+				return false
+			}
+		default:
+			return false
+		}
+	}
+	return true
+}
+
+func effAssigned(stmts []ast.Stmt, acc *[]string) {
+	add := func(n string) {
+		for _, s := range *acc {
+			if s == n {
+				return
+			}
+		}
+		*acc = append(*acc, n)
+	}
+	for _, s := range stmts {
+		switch x := s.(type) {
+		case *ast.AssignStmt:
+			if n, ok := refName(x.Lhs[0]); ok {
+				add(n)
+			}
+		case *ast.IfStmt:
+			effAssigned(x.Body.List, acc)
+			effAssigned(elseList(x), acc)
+		case *ast.BlockStmt:
+			effAssigned(x.List, acc)
+		}
+	}
+}
+
+// topAssigns: the block assigns v unconditionally (a plain `=` at its top level)
+func topAssigns(stmts []ast.Stmt, v string) bool {
+	for _, s := range stmts {
+		if as, ok := s.(*ast.AssignStmt); ok && as.Tok == token.ASSIGN && len(as.Lhs) == 1 {
+			if n, ok := refName(as.Lhs[0]); ok && n == v {
+				return true
+			}
+		}
+	}
+	return false
 }
